@@ -3,7 +3,7 @@
 import json
 NA = {
  'C06':'FingerprintClientHello/FromRaw followed by ApplyPreset and BuildHandshakeState is a function of the captured bytes and the Fingerprinter flags; everything that varies per connection is excluded by the statement itself. No peer, clock, schedule or fault for a simulator to own: property-based input generation is the fitting technique (DESIGN 5). Fingerprinted copies are still one of the fingerprint families of C02, C10-C13, C17, C18, C33 (not claimed as coverage of C06).',
- 'C09':'The randomized spec is a function of (Seed, Weights, family); reproducibility and cross-extension consistency are statements about that function alone. The multi-party consequence named in the property (a server answering with a HelloRetryRequest the client cannot follow) is exercised through randomized fingerprints by C10, C17 and C18, whose known findings are exactly those cases (DESIGN 5).',
+ 'C09':'The randomized spec is a function of (Seed, Weights, family); reproducibility and cross-extension consistency are statements about that function alone. The multi-party consequence named in the property (a server answering with a HelloRetryRequest the client cannot follow) is exercised through randomized fingerprints by C10, C17 and C18, whose findings (repaired in /repo by fix: commits bdc5777 and 1515e2f) were exactly those cases (DESIGN 5).',
  'C07':'Pure total functions of caller-supplied bytes/JSON: no connection, clock, randomness, peer, schedule or fault for a simulator to own; coverage-guided fuzzing is the fitting technique (DESIGN 5).',
  'C08':'Encoder/decoder agreement per extension type is a pure codec round trip on in-memory values; nothing for a scheduler, transport or clock to decide (DESIGN 5).',
  'C24':'Varint and transport-parameter marshalling are pure functions; the statement quantifies over all 62-bit values symbolically (DESIGN 5).',
